@@ -221,7 +221,8 @@ def handle : List Sexp → Option Sexp
         (r.1, acc.2.1 ++ [.list [errOut r.2, natsOut out]], acc.2.2 || r.2 == some .unmodelled)
       let fin := history.foldl step (st0 flag ar, [], false)
       if fin.2.2 then pure (.atom "unmodelled") else
-      pure (.list [.list fin.2.1, natsOut fin.1.sentinel])
+      pure (.list [.list fin.2.1, natsOut fin.1.sentinel,
+        .list (fin.1.cache.map fun e => .list [ofNat e.1.1, ofBool e.1.2])])
   | [.atom "reach", t, l, o, ar, root, .list chain] => do
       let cfg ← cfg? t l o ar
       let root ← root? root
